@@ -153,7 +153,7 @@ for path in sorted(glob.glob(os.path.join(data_dir, "*")), key=os.path.getsize):
 
 # extended XYZ with a masses column (the corpus has none)
 p = os.path.join(tmp, "masses.xyz")
-open(p, "w").write('2\nProperties=species:S:1:pos:R:3:masses:R:1 energy=-1.0 pbc="F F F"\nO 0.0 0.0 0.1 15.999\nH 0.0 0.7 -0.4 1.008\n')
+open(p, "w").write('2\nProperties=species:S:1:pos:R:3:masses:R:1:force:R:3 energy=-1.0 pbc="F F F"\nO 0.0 0.0 0.1 15.999 0.25 -0.5 0.125\nH 0.0 0.7 -0.4 1.008 -0.25 0.5 -0.125\n')
 try:
     mod = FORMAT_MODULES["extxyz"]
     base = numeric_leaves(load_one(p, fmt="extxyz"))
